@@ -137,11 +137,12 @@ static void mpi_prog()
     g = &s;
     g_nreq = 0;
     g_pending_answers = 0;
-    g_slow_calls = MODESET ? 2 : 0;
+    g_slow_calls = MODESET == 1 ? 2 : 0;
     g_in_test = 0;
     static int g_noneager;
     g_noneager = MODESET ? 1 : pmc_choose(2, 0);    // 1: the eager test right after the MPI call finds the request pending (no deviation)
-    int mode = MODESET ? modes_pool_subset[pmc_choose(8, 0)] : modes_all[pmc_choose(32, 0)];
+    static const int modes_plain_subset[] = {30, 10, 18, 2};    // the default and three more multi-threaded polling modes
+    int mode = MODESET == 2 ? modes_plain_subset[pmc_choose(4, 0)] : MODESET ? modes_pool_subset[pmc_choose(8, 0)] : modes_all[pmc_choose(32, 0)];
     s.nreq = NREQ;
     static int buf[4];
     for (int i = 0; i < 4; ++i) buf[i] = -1;
@@ -298,6 +299,7 @@ int main(int argc, char** argv)
         {"one_request_polling_pool", mpi_prog<1, 1>, 1, 1, 0.2, 0.15, 1, focus, sites, nullptr},
         {"two_requests", mpi_prog<2, 0>, 1, 2, 0.2, 0.3, 1, focus, sites, nullptr},
         {"two_requests_polling_pool", mpi_prog<2, 1, 1>, 1, 1, 0.3, 0.2, 1, "two requests with a dedicated polling pool (8 completion modes): one worker appends a request while the pool thread is inside an MPI test call", sites, nullptr},
+        {"requests_plain_accesses", mpi_prog<3, 0, 2>, 1, 2, 0.3, 0.2, 1, "three requests polled by both workers; besides the atomics, every plain load and store of compact_vectors / the request and callback vectors in the polling function is a scheduling point (the polling module is built with memory-access instrumentation): the vectors are plain data that only the polling lock protects", sites, nullptr, "compact_vectors|poll_multithreaded"},
         {"detached_request", detached_prog, 1, 2, 0.2, 0.2, 1, focus, sites, nullptr},
         {"many_requests_34", many_prog<34>, 0, 1, 0.1, 0.2, 0, "34 outstanding requests, the first 33 held back until the last one has completed (chunked testing of the polling vector)", sites, nullptr},
     };
